@@ -18,7 +18,7 @@ id,suf=sys.argv[1],sys.argv[2]
 d=f"/verif/seeded/{id}-{suf}"
 notes=open(os.path.join(d,"notes.md")).read() if os.path.exists(os.path.join(d,"notes.md")) else ""
 first=" ".join(notes.split())[:600]
-json.dump({"property":id,"change":first,"needs_to_manifest":"see notes.md","origin":"third round sub-agent (told about the two earlier mechanisms and asked for a different one)","confirmed_by":"tools/validate_seed.sh in a scratch worktree: applies, builds, suite passes with the change, demo passes clean and fails with the change","detected_by":[]},open(os.path.join(d,"meta.json"),"w"),indent=1)
+json.dump({"property":id,"change":first,"needs_to_manifest":"see notes.md","origin":"sub-agent of seeding round '"+suf+"' (given only the property text and a scratch worktree; told the mechanisms of the earlier seeds of this property and asked for a different one)","confirmed_by":"tools/validate_seed.sh in a scratch worktree: applies, builds, suite passes with the change, demo passes clean and fails with the change","detected_by":[]},open(os.path.join(d,"meta.json"),"w"),indent=1)
 PY
     tools/seed_matrix.sh "seeded/$id-$suf" 2>&1 | cut -c1-240
   else
